@@ -50,6 +50,12 @@ const NAMES_MB: &[&str] = &["a", "chr\u{e9}", "\u{e9}", "\u{3b1}\u{3b2}\u{3b3}"]
 /// (bedGraph allows extra whitespace-free columns only in BED; here the value gets many digits
 /// and the line a long chromosome-independent tail through a 4th column with a long float).
 fn build_text(runs: &[usize], names: &[&str], long_at: Option<usize>, mixed: bool, final_newline: bool) -> (String, Vec<(u64, String)>, usize) {
+    build_text_l(runs, names, long_at, 34, mixed, final_newline)
+}
+
+/// `long_reps` * 9 digits in the long line's value: 34 gives ~310 bytes, 1000 / 2400 give lines longer than the
+/// 8 KiB a default BufReader holds (so "skip to the end of this line" needs more than one buffer fill).
+fn build_text_l(runs: &[usize], names: &[&str], long_at: Option<usize>, long_reps: usize, mixed: bool, final_newline: bool) -> (String, Vec<(u64, String)>, usize) {
     let mut text = String::new();
     let mut truth = vec![];
     let mut line_no = 0usize;
@@ -61,7 +67,7 @@ fn build_text(runs: &[usize], names: &[&str], long_at: Option<usize>, mixed: boo
             let start = i as u32 * 10;
             let val = if long_at == Some(line_no) {
                 // a value with ~300 digits is still a valid f32 text
-                format!("0.{}", "123456789".repeat(34))
+                format!("0.{}", "123456789".repeat(long_reps))
             } else if mixed && (line_no * 7 + ci) % 3 == 0 {
                 format!("{}.{}", line_no, "5".repeat((line_no * 13) % 40 + 1))
             } else {
@@ -138,7 +144,7 @@ pub fn c18i(ctx: &Ctx, begin: &mut dyn FnMut(J)) -> Outcome {
     let total_lines: usize = runs.iter().sum();
     let mut files = 0u64;
     for (nameset, names) in [("ascii", NAMES_ASCII), ("multibyte", NAMES_MB)] {
-        let mut patterns: Vec<(Option<usize>, bool, String)> = vec![(None, false, "uniform".into()), (None, true, "mixed".into())];
+        let mut patterns: Vec<(Option<usize>, usize, bool, String)> = vec![(None, 34, false, "uniform".into()), (None, 34, true, "mixed".into())];
         for l in 0..total_lines {
             // classify where the long line sits
             let mut acc = 0;
@@ -151,11 +157,14 @@ pub fn c18i(ctx: &Ctx, begin: &mut dyn FnMut(J)) -> Outcome {
                 }
                 acc += n;
             }
-            patterns.push((Some(l), false, format!("long_line:{}", where_)));
+            patterns.push((Some(l), 34, false, format!("long_line:{}", where_)));
+            if l == 0 || l == total_lines / 2 || l + 1 == total_lines {
+                patterns.push((Some(l), if l % 2 == 0 { 1000 } else { 2400 }, false, format!("line_over_8KiB:{}", where_)));
+            }
         }
-        for (long_at, mixed, pname) in patterns {
+        for (long_at, reps, mixed, pname) in patterns {
             for final_newline in [true, false] {
-                let (text, truth, _) = build_text(&runs, names, long_at, mixed, final_newline);
+                let (text, truth, _) = build_text_l(&runs, names, long_at, reps, mixed, final_newline);
                 if std::fs::write(&path, &text).is_err() {
                     out.inconclusive = Some("HARNESS cannot write scratch file".into());
                     return out;
@@ -396,9 +405,18 @@ pub fn c18s(ctx: &Ctx, begin: &mut dyn FnMut(J)) -> Outcome {
     let total_lines: usize = runs.iter().sum();
     let mut calls = 0u64;
     for (nameset, names) in [("ascii", NAMES_ASCII), ("multibyte", NAMES_MB)] {
-        for (long_at, mixed) in [(None, false), (None, true), (Some(0), false), (Some(total_lines / 2), false), (Some(total_lines - 1), false)] {
+        for (long_at, reps, mixed) in [
+            (None, 34, false),
+            (None, 34, true),
+            (Some(0), 34, false),
+            (Some(total_lines / 2), 34, false),
+            (Some(total_lines - 1), 34, false),
+            (Some(0), 2400, false),
+            (Some(total_lines / 2), 1000, false),
+            (Some(total_lines - 1), 2400, false),
+        ] {
             for final_newline in [true, false] {
-                let (text, _, nlines) = build_text(&runs, names, long_at, mixed, final_newline);
+                let (text, _, nlines) = build_text_l(&runs, names, long_at, reps, mixed, final_newline);
                 let _ = std::fs::write(&path, &text);
                 let size = text.len() as u64;
                 let mut line_starts: Vec<u64> = vec![0];
@@ -410,7 +428,7 @@ pub fn c18s(ctx: &Ctx, begin: &mut dyn FnMut(J)) -> Outcome {
                 for chunks in 1..=(nlines as u64 + 2) {
                     calls += 1;
                     let res = wr::guard(|| split_file_into_chunks_by_size(std::fs::File::open(&path).unwrap(), chunks));
-                    let site = format!("{}:{}", nameset, if long_at.is_some() { "long_line" } else if mixed { "mixed" } else { "uniform" });
+                    let site = format!("{}:{}", nameset, if reps > 34 { "line_over_8KiB" } else if long_at.is_some() { "long_line" } else if mixed { "mixed" } else { "uniform" });
                     let d = |what: String| J::obj().set("chunks_requested", chunks.into()).set("what", J::s(what)).set("text", J::s(wr::truncate(&text, 500)));
                     match res {
                         Ok(Ok(v)) => {
